@@ -5,13 +5,15 @@ import os
 import common
 import sched as S
 from props import c09_extract
+from props import c09_tr
 from props import c09_real as R
 
 ID = "C09"
 LEAN_MODEL_TARGETS = ["drv_c09"]
-LEAN_PROOF_TARGETS = ["PyroProps.C09"]
+LEAN_PROOF_TARGETS = ["PyroProps.C09", "PyroProps.C09Ast", "PyroProps.C09Surv", "PyroProps.C09Src"]
 AUDIT_FILES = ["PyroModel/Lock.lean", "PyroModel/Instances.lean", "PyroModel/Gen/C09.lean", "PyroProofs/Lock.lean",
-               "PyroProofs/Instances.lean", "PyroProps/C09.lean"]
+               "PyroProofs/Instances.lean", "PyroProps/C09.lean",
+               "PyroModel/InstancesSrc.lean", "PyroModel/Gen/C09Src.lean", "PyroProps/C09Ast.lean", "PyroProps/C09Surv.lean", "PyroProps/C09Src.lean"]
 THEOREMS = ["Pyro.C09.C09_gen_tests", "Pyro.C09.C09_gen_shape", "Pyro.C09.C09_gen_lock", "Pyro.C09.C09_gen_conn", "Pyro.C09.C09_gen_daemon",
             "Pyro.C09.C09_gen_behavior", "Pyro.C09.C09_behavior_modes",
             "Pyro.C09.C09_single", "Pyro.C09.C09_single_partial", "Pyro.C09.C09_single_falsy_refuted",
@@ -19,7 +21,13 @@ THEOREMS = ["Pyro.C09.C09_gen_tests", "Pyro.C09.C09_gen_shape", "Pyro.C09.C09_ge
             "Pyro.C09.C09_no_sharing", "Pyro.C09.C09_session_private", "Pyro.C09.C09_session_dropped", "Pyro.C09.C09_close_empties",
             "Pyro.C09.C09_percall", "Pyro.C09.C09_created_fresh", "Pyro.C09.C09_creator_once",
             "Pyro.C09.C09_created_count", "Pyro.C09.C09_failed_creation_stores_nothing", "Pyro.C09.C09_wf",
-            "Pyro.C09.C09_single_concurrent", "Pyro.Lock.atomic", "Pyro.Lock.book"]
+            "Pyro.C09.C09_single_concurrent", "Pyro.Lock.atomic", "Pyro.Lock.book",
+            # the transcription of the current source of Daemon._getInstance (harness/props/c09_tr.py -> Gen/C09Src.lean)
+            "Pyro.C09.C09_src_translated_flag", "Pyro.C09.C09_getInstance_translated", "Pyro.C09.C09_runHist_translated",
+            "Pyro.C09.C09_source_lock", "Pyro.C09.C09_source_single", "Pyro.C09.C09_source_session",
+            "Pyro.C09.C09_source_no_sharing", "Pyro.C09.C09_source_percall", "Pyro.C09.C09_source_creator_once",
+            "Pyro.C09.C09_source_creator_count",
+            "Pyro.C09.C09_session_never_survives", "Pyro.C09.C09_source_session_never_survives"]
 SUITES = ["history", "behavior", "race"]
 RULE = ("(a) histories: 1-4 registered classes (mode single/session/percall/undecorated/hand-set invalid; creator none/"
         "callable (needing the class argument / also callable without: default arg, *args, functools.partial, a class) /"
@@ -48,7 +56,14 @@ TRUSTED = ["harness/sched.py (deterministic scheduler, instrumented lock and tab
 
 CORPUS = os.path.join(common.VERIF, "corpus", "C09")
 
-extract = c09_extract.extract
+
+
+def extract():
+    """Gen/C09Src.lean (the transcription of `_getInstance`, written here) and Gen/C09.lean (returned)."""
+    common.repo_on_path()
+    src, _refusal = c09_tr.transcribe()        # a refusal is recorded in the file: `C09_src_translated_flag` / `_translated` then fail
+    common.write_if_changed(os.path.join(common.LEAN, "PyroModel", "Gen", "C09Src.lean"), src)
+    return c09_extract.extract()
 
 
 # ---- generators -------------------------------------------------------------------------------------
